@@ -1056,6 +1056,12 @@ def replay_known(entry):
         root, _ = core.build_node_tree(_spec_from_nested(w["tree"]))
         text = bigtree.tree_to_mermaid(root)
         return "-->" not in text and '("' not in text
+    if w.get("clause") == "dot_colon_names":
+        r = bigtree.Node("r")
+        bigtree.Node("x:1", parent=r)
+        bigtree.Node("x:2", parent=r)
+        ids = [n.get_name() for n in bigtree.tree_to_dot(r).get_nodes()]
+        return len(ids) == 3 and len(set(ids)) < 3
     if entry["id"] == "K4":
         r1, _ = core.build_node_tree(_spec_from_nested(w["tree1"]))
         r2, _ = core.build_node_tree(_spec_from_nested(w["tree2"]))
